@@ -366,6 +366,48 @@ func c17(run *ev.Run, tier string) {
 		run.Case("path|"+p, strings.Count(p, ".") >= 2)
 	}
 
+	// ---------------- (1b) the same agreement, dynamically: wherever the schema
+	// forbids additional properties the strict parser must reject an unknown key,
+	// and the other way round (sites found by walking a full document in
+	// parallel with the Go types, as in C16)
+	if fb, err := yaml.Marshal(fullConfig()); err == nil {
+		var root yaml.Node
+		if yaml.Unmarshal(fb, &root) == nil {
+			var sites []strictSite
+			strictSites(&root, reflect.TypeOf(nfpm.Config{}), "", &sites)
+			agree := 0
+			for si := range sites {
+				st := sites[si]
+				st.node.Content = append(st.node.Content, &yaml.Node{Kind: yaml.ScalarNode, Value: "verif_unknown_key"}, &yaml.Node{Kind: yaml.ScalarNode, Value: "x"})
+				b, merr := yaml.Marshal(&root)
+				st.node.Content = st.node.Content[:len(st.node.Content)-2]
+				if merr != nil {
+					continue
+				}
+				_, perr := parseYAML(string(b), nil)
+				v, verr := yamlToJSONValue(string(b))
+				if verr != nil {
+					continue
+				}
+				var errs []string
+				sd.validate(sd.root, v, "", &errs)
+				schemaRejects := false
+				for _, e := range errs {
+					if strings.Contains(e, "verif_unknown_key") {
+						schemaRejects = true
+					}
+				}
+				run.Case("unknown-key|"+st.path, st.path != "")
+				if schemaRejects != (perr != nil) {
+					run.Violate("C17/unknown-key-disagreement/"+st.t.Name(), map[string]any{"site": st.path, "schema_rejects": schemaRejects, "parser_rejects": perr != nil})
+				} else {
+					agree++
+				}
+			}
+			run.Set("unknown_key_sites_where_schema_and_parser_agree", agree)
+		}
+	}
+
 	// ---------------- documents
 	payload := filepath.Join(dir, "p.txt")
 	_ = os.WriteFile(payload, []byte("p\n"), 0o644)
